@@ -13,6 +13,28 @@ def nontrivial_default(r):
     return r["impl"]
 
 
+def race_check(tier, seed, harn, bindir, goenv):
+    """C20: the load harness built with the race detector; any DATA RACE report is a violation."""
+    import subprocess, os
+    exe = os.path.join(bindir, "siot-diff-race")
+    goenv = dict(goenv, CGO_ENABLED="1")
+    b = subprocess.run(["go", "build", "-race", "-tags", "verif", "-o", exe, "./cmd/siot-diff"], cwd=harn, env=goenv,
+                       capture_output=True, text=True, timeout=900)
+    if b.returncode != 0:
+        return ("race: go build -race of the load harness", False, "go build -race failed:\n" + b.stdout + b.stderr)
+    n = 12 if tier == "quick" else 150
+    env = dict(goenv)
+    env["GORACE"] = "halt_on_error=0 exitcode=0"
+    r = subprocess.run([exe, "gen", "C20", "-seed", str(seed + 100), "-n", str(n)], cwd=harn, env=env, capture_output=True, text=True, timeout=1500)
+    try:
+        os.remove(exe)
+    except OSError:
+        pass
+    races = r.stderr.count("WARNING: DATA RACE")
+    ok = r.returncode == 0 and races == 0 and r.stdout.count("\n") == n
+    return (f"race: {n} load cases under the race detector, 0 reports", ok, f"exit={r.returncode} races={races}\n" + r.stderr[-5000:])
+
+
 PROPS = {
     "C14": {
         "required_theorems": ["c14_exact", "windowExec_iff", "c14_boundaries", "c14_err_start", "c14_err_end",
@@ -320,5 +342,25 @@ PROPS = {
                      "hundred microseconds, without the admin user (observed, documented in DESIGN.md; the property makes no claim about the admin user)"],
         "assumptions": [],
         "partial": "instants INSIDE a transaction are covered by SQLite's contract (parameter), not by a theorem about SQLite; the kill tests sample them",
+    },
+    "C20": {
+        "required_theorems": ["c20_reads_monotone", "c20_acked_write_visible", "c20_final_serial_and_consistent", "c20_commit_order_irrelevant"],
+        "n": {"quick": 40, "thorough": 1500},
+        "thorough_seeds": 3,
+        "extra": [race_check],
+        "rule": "per case a fresh in-process instance (embedded NATS, store, HTTP); 1-6 writer and 1-5 reader goroutines, each with its own bus connection, perform 10-59 operations each on three nodes "
+                "(one reachable by two paths): acknowledged node-point writes over 3 identities and edge-point writes with per-writer distinct, overlapping time stamps; reads with GetNodes; a verifier calls "
+                "admin.storeVerify; every operation is stamped with a global logical clock at invocation and response. Then the instance is stopped (bounded wait) and its store file opened again and dumped. "
+                "Oracle on the history: every request answered without error; a read shows, per identity, a point that some write started before the read ended produced and that is at least as new as "
+                "every write acknowledged before the read was issued; reads of one reader never go back; the final rows are the newest acknowledged point per identity with consistent hashes; stop returned; "
+                "file re-opened. In addition the same load runs under the Go race detector (12 cases quick, 150 thorough): any DATA RACE report is a violation. distinct = distinct case line "
+                "(schedules are wall-clock dependent: each run explores new interleavings)",
+        "trusted": ["Go scheduler, sync.Mutex, database/sql connection pool, modernc SQLite WAL snapshot isolation and locking, embedded nats-server: the run-time whose interleavings the model abstracts into a commit order",
+                    "the Go race detector (sound for the executions it sees, not complete)"],
+        "modelled": ["a concurrent run is modelled by its commit order and by the prefix each read saw (Siot/Model/Conc.lean); the theorems hold for every commit order",
+                     "data races, deadlock, lost replies and termination cannot be expressed in this model: decided by the load harness only (history oracle, race detector, stop + re-open)",
+                     "admin.storeMaint (which rewrites hashes from reads made outside its transaction) is not exercised"],
+        "assumptions": [],
+        "partial": "theorems: monotone reads, visibility of acknowledged writes, serial final content with consistent hashes — for every commit order. Not provable in this family: absence of data races / deadlock / unanswered requests, and that the real store linearises as modelled (checked by the history oracle on sampled schedules)",
     },
 }
